@@ -519,4 +519,23 @@ def AssignedOK (fs : List (List Rat → Rat)) : ATable → List (Query × List C
   | _, [] => True
   | T, (q, inds) :: rest => inds.Perm (quadPoints T q.points) ∧ AssignedOK fs (T.answerAssigned fs q inds).1 rest
 
+/-! ### decidable forms of the hypotheses (evaluated by the driver on every case) -/
+
+/-- `WF` as a Boolean -/
+def wfB (axes : List Axis) : Bool := axes.all (fun a => decide (2 ≤ a.npt) && decide (a.low < a.high))
+
+/-- `Query.inBox` as a Boolean -/
+def Query.inBoxB (axes : List Axis) (q : Query) : Bool :=
+  q.points.all (fun x => decide (x.length = axes.length) && PorepyVerif.C41.inBox axes x)
+
+/-- `Query.axisOk` as a Boolean -/
+def Query.axisOkB (d : Nat) : Query → Bool
+  | .interp _ => true
+  | .grad _ k => decide (k < d)
+
+/-- `assign_values(val, coord)` WITHOUT indices: the indices are recovered from the coordinates by
+    `_find_base_vertex(coord)` (plain floor division) -/
+def assignNoIdx (T : ATable) (vals : List (List Rat)) (crd : List (List Rat)) : ATable :=
+  assign T vals crd (crd.map (floorIdx T.basePt T.h))
+
 end PorepyVerif.C41
